@@ -191,7 +191,7 @@ func faultCase(r *rand.Rand, i int, only int) *Case {
 	}
 	sc, v, converged, _ := runCorpus(idx, faults)
 	sc.steps = append(sc.steps, stepJ{"same_fixpoint", "final", map[string]interface{}{"baseline": base.view, "faulted": v, "ns": sc.ns, "eds": sc.name},
-		map[string]interface{}{"converged": converged}})
+		map[string]interface{}{"converged": converged}, sc.w.envOps})
 	cat := []string{"scenario:" + corpus[idx].name, "fault:" + kind, fmt.Sprintf("pair:%v", pair)}
 	if k < len(sc.faultLog) {
 		cat = append(cat, "fault-on:"+sc.faultLog[k])
